@@ -322,16 +322,15 @@ type GenOpts struct {
 	MaxEdits  int
 }
 
-var segwitOrder = []uint{fixtures.TypeShelley, fixtures.TypeAllegra, fixtures.TypeMary, fixtures.TypeAlonzo, fixtures.TypeBabbage, fixtures.TypeConway}
+var defaultTemplates = []string{"conway", "babbage", "alonzo", "mary", "allegra", "shelley", "dijkstra", "byron_main", "shelley_testnet", "byron_main_testnet"}
 
 // GenBlock draws a generated block. All randomness comes from rt.
 func GenBlock(rt *rapid.T, o GenOpts) *Gen {
 	loadFixtures()
 	names := o.Templates
 	if names == nil {
-		for _, f := range fixtures.SmallBlocks() {
-			names = append(names, f.Name)
-		}
+		// rapid favours small indices: the transaction-rich eras come first
+		names = defaultTemplates
 		if rapid.IntRange(0, 39).Draw(rt, "ebb") == 0 {
 			names = []string{"byron_ebb"}
 		}
@@ -351,6 +350,19 @@ func GenBlock(rt *rapid.T, o GenOpts) *Gen {
 		g.rebuildTxs(rt, v, pf, maxTx)
 	} else {
 		g.Ops = append(g.Ops, "as-is")
+	}
+
+	// --- Dijkstra: Leios-extended header body (leios_certified, leios_announcement / nil)
+	if g.Type == fixtures.TypeDijkstra && rapid.Bool().Draw(rt, "leiosHeader") {
+		hb := v.HeaderBody()
+		ann := xcbor.Null()
+		if rapid.Bool().Draw(rt, "announce") {
+			eb := rapid.SliceOfN(rapid.Byte(), 32, 32).Draw(rt, "ebHash")
+			ann = xcbor.A(xcbor.B(eb), xcbor.U(uint64(rapid.Uint32().Draw(rt, "ebSize"))))
+		}
+		hb.Items = append(hb.Items, xcbor.Bool(rapid.Bool().Draw(rt, "certified")), ann)
+		fixWidth(hb)
+		g.Ops = append(g.Ops, "leios-header-extension")
 	}
 
 	// --- style plan
@@ -477,7 +489,10 @@ func (g *Gen) rebuildTxs(rt *rapid.T, v View, pf *parsedFixture, maxTx int) {
 	case LayoutDijkstra:
 		var src []PoolTx
 		for _, p := range poolAll {
-			if p.Type == fixtures.TypeDijkstra || (p.Type == fixtures.TypeConway && !p.Invalid) {
+			// Conway transactions are structurally Dijkstra transactions, except that
+			// the Dijkstra decoder only takes the map form of redeemers
+			if p.Type == fixtures.TypeDijkstra || (p.Type == fixtures.TypeConway && !p.Invalid &&
+				(p.Wit.MapGet(5) == nil || p.Wit.MapGet(5).Kind == xcbor.Map)) {
 				src = append(src, p)
 			}
 		}
@@ -486,6 +501,7 @@ func (g *Gen) rebuildTxs(rt *rapid.T, v View, pf *parsedFixture, maxTx int) {
 		}
 		items := make([]*xcbor.Node, 0, n)
 		var from []string
+		var invalid []*xcbor.Node
 		for i := 0; i < n; i++ {
 			p := src[rapid.IntRange(0, len(src)-1).Draw(rt, "pick")]
 			aux := xcbor.Null()
@@ -493,11 +509,22 @@ func (g *Gen) rebuildTxs(rt *rapid.T, v View, pf *parsedFixture, maxTx int) {
 				aux = p.Aux.Clone()
 			}
 			items = append(items, xcbor.A(p.Body.Clone(), p.Wit.Clone(), aux))
-			from = append(from, p.From)
+			tag := p.From
+			if rapid.IntRange(0, 7).Draw(rt, "invalid") == 0 {
+				invalid = append(invalid, xcbor.U(uint64(i)))
+				tag += "(invalid)"
+			}
+			from = append(from, tag)
 		}
 		l := v.txList()
 		l.Items = items
 		fixWidth(l)
+		// invalid_transactions: nonempty set / nil
+		if len(invalid) > 0 {
+			v.Root.Items[1].Items[0] = xcbor.A(invalid...)
+		} else {
+			v.Root.Items[1].Items[0] = xcbor.Null()
+		}
 		g.Ops = append(g.Ops, fmt.Sprintf("txs=%d[%s]", n, strings.Join(from, ",")))
 	}
 }
@@ -533,8 +560,6 @@ func (g *Gen) restyle(rt *rapid.T, v View, maxEdits int) {
 	case LayoutByronEbb:
 		bodyPre, witPre, auxPre = "/1", "/1", "/2"
 	}
-	// paths of output items, for the "outputs" focus
-	outPaths := map[string]bool{}
 	if focus == "outputs" {
 		idx := map[*xcbor.Node]bool{}
 		for i := 0; i < v.NTx(); i++ {
@@ -550,7 +575,6 @@ func (g *Gen) restyle(rt *rapid.T, v View, maxEdits int) {
 				}
 			}
 		}
-		outPaths = nil
 		o := xcbor.StyleOpts{Filter: func(n *xcbor.Node, _ string) bool { return idx[n] }}
 		if len(idx) > 0 {
 			o.MaxEdits = maxEdits
@@ -560,7 +584,6 @@ func (g *Gen) restyle(rt *rapid.T, v View, maxEdits int) {
 		focus = "skeleton"
 		g.Focus = "skeleton(no-outputs)"
 	}
-	_ = outPaths
 	has := func(path, pre string) bool { return path == pre || strings.HasPrefix(path, pre+"/") }
 	o := xcbor.StyleOpts{MaxEdits: maxEdits}
 	switch focus {
